@@ -219,7 +219,7 @@ func gserfuzz(args []string) error {
 				}
 				if p != "" {
 					rep.Add(run.Mismatch{Property: *prop, Sig: fmt.Sprintf("stream:%s:n=%d:trunc=%d", c.desc, c.n, vi), Input: run.Hex(b), Text: c.desc,
-						Cfg: map[string]interface{}{"tape_size": c.n, "block_type": typ, "values_truncated": vi, "spec_decoder_accepts": c.ok},
+						Cfg:  map[string]interface{}{"tape_size": c.n, "block_type": typ, "values_truncated": vi, "spec_decoder_accepts": c.ok},
 						Want: "an error, or a result every traversal of which terminates without panic", Got: p})
 				}
 				if hung {
